@@ -136,6 +136,43 @@ def check_option(job):
             "nt": common.digest(job) if len(assign) >= 2 else None, "cls": msgs[0].split(":")[0] if msgs else None}
 
 
+def check_pair(job):
+    """two options, each set in a different file source (and both in both): every option follows its own sources"""
+    (s1, o1, t1), (s2, o2, t2), mode = job
+    dflt = defaults()
+    box = fsbox.Box("c16p")
+    msgs = []
+    try:
+        box.build({"in/a.cmake": "set(A 1)\n"})
+
+        def val(sec, opt, typ, src):
+            return (not dflt[(sec, opt)]) if typ == "bool" and src == "sfile" else bool(dflt[(sec, opt)]) if typ == "bool" \
+                else value_for(typ, src, opt)
+        s_tree, u_tree = {}, {}
+        if mode == "cross":
+            s_tree.setdefault(s1, {})[o1] = val(s1, o1, t1, "sfile")
+            u_tree.setdefault(s2, {})[o2] = val(s2, o2, t2, "user")
+            want = {(s1, o1): val(s1, o1, t1, "sfile"), (s2, o2): val(s2, o2, t2, "user")}
+        else:
+            for tree, src in ((s_tree, "sfile"), (u_tree, "user")):
+                tree.setdefault(s1, {})[o1] = val(s1, o1, t1, src)
+                tree.setdefault(s2, {})[o2] = val(s2, o2, t2, src)
+            want = {(s1, o1): val(s1, o1, t1, "sfile"), (s2, o2): val(s2, o2, t2, "sfile")}
+        st, status, exc = run_main(box, [], s_tree, u_tree)
+        if st is None:
+            msgs.append(f"error: main() failed: {exc}")
+        else:
+            for (sec, opt), w in want.items():
+                g = get(st, sec, opt)
+                if (list(g) if isinstance(g, (list, tuple)) else g) != w:
+                    msgs.append(f"precedence: {sec}.{opt} is {g!r}, expected {w!r} when {s1}.{o1} and {s2}.{o2} are set "
+                                f"({mode}: -s file / user configuration)")
+    finally:
+        box.cleanup()
+    return {"viol": msgs[:3], "obs": common.digest([job, not msgs]), "n": 1, "nt": common.digest(job),
+            "cls": "precedence" if msgs else None}
+
+
 def check_defaults(job):
     """nothing set anywhere: every option takes the documented default"""
     dflt = defaults()
@@ -279,6 +316,9 @@ def run(ctx):
                         jobs.append((sec, opt, typ, a, bg))
     ctx.sweep(check_option, jobs, space="options x source subsets x backgrounds", selftest=3)
     ctx.sweep(check_defaults, [0], space="defaults", selftest=0)
+    opts = OPTIONS if not quick else OPTIONS[::3]
+    pjobs = [(a, b, mode) for a, b in itertools.permutations(opts, 2) for mode in ("cross", "both")]
+    ctx.sweep(check_pair, pjobs, space="pairs of options across the two file sources", selftest=2)
     subsets = [s for k in range(0, 4) for s in itertools.combinations(PRIORITY, k)]
     ctx.sweep(check_excludes, subsets, space="exclude union", selftest=0)
     ojobs = []
@@ -298,6 +338,8 @@ def run(ctx):
 
 
 def replay(case):
+    if isinstance(case, list) and len(case) == 3 and isinstance(case[0], list):
+        return check_pair((tuple(case[0]), tuple(case[1]), case[2]))["viol"]
     if isinstance(case, list) and len(case) == 5 and isinstance(case[3], dict):
         return check_option(tuple(case))["viol"]
     if isinstance(case, list) and len(case) == 5 and case[0] in ("relative", "absolute"):
